@@ -16,6 +16,7 @@ import (
 	"net"
 	"os"
 	"sort"
+	"strings"
 	"sync"
 	"syscall"
 	"time"
@@ -27,13 +28,18 @@ type Net struct {
 	listeners map[string]*Listener
 	conns     []*Conn
 	dials     []*pendingDial
-	nextDial  int
+	nextDial  map[string]int // per (client, address): dial ordinals must not depend on the arrival order of unrelated dials
 	// Mode per address when no listener is up: refuse (default) or blackhole.
 	blackhole map[string]bool
 	// partition[client|addr] = true: connections stalled, dials black-holed
 	partitioned map[string]bool
 	// Cap is the in-flight capacity per direction in bytes (0 = unbounded).
 	Cap int
+	// AutoConnect: a dial to a listening, reachable address completes at once instead of
+	// waiting for the scheduler (used in fair phases, where the network is assumed to be
+	// fast relative to connect timeouts).
+	AutoConnect bool
+	nextConn    map[string]int
 	// Log receives one line per network event (may be nil).
 	Log   func(kind string, attrs ...any)
 	Stats Stats
@@ -128,12 +134,20 @@ type pendingDial struct {
 func (n *Net) Dialer(client string) func(ctx context.Context, addr string) (net.Conn, error) {
 	return func(ctx context.Context, addr string) (net.Conn, error) {
 		n.mu.Lock()
-		n.nextDial++
-		pd := &pendingDial{id: n.nextDial, client: client, addr: addr, res: make(chan dialResult, 1)}
+		if n.nextDial == nil {
+			n.nextDial = map[string]int{}
+		}
+		n.nextDial[client+">"+addr]++
+		pd := &pendingDial{id: n.nextDial[client+">"+addr], client: client, addr: addr, res: make(chan dialResult, 1)}
 		n.dials = append(n.dials, pd)
 		n.Stats.Dials++
+		_, up := n.listeners[addr]
+		auto := n.AutoConnect && up && !n.partitioned[client+"|"+addr]
 		n.mu.Unlock()
 		n.log("dial", "client", client, "addr", addr, "id", pd.id)
+		if auto {
+			n.resolveDial(pd)
+		}
 		select {
 		case r := <-pd.res:
 			return r.ep, r.err
@@ -143,7 +157,7 @@ func (n *Net) Dialer(client string) func(ctx context.Context, addr string) (net.
 				pd.done = true
 				n.Stats.DialTimeouts++
 				n.mu.Unlock()
-				n.log("dial-abandoned", "id", pd.id)
+				n.log("dial-abandoned", "client", pd.client, "addr", pd.addr, "id", pd.id)
 				return nil, ctx.Err()
 			}
 			n.mu.Unlock()
@@ -163,6 +177,7 @@ func (n *Net) Dialer(client string) func(ctx context.Context, addr string) (net.
 type Conn struct {
 	n      *Net
 	ID     int
+	Key    string // deterministic name: client>addr#ordinal
 	Client string
 	Server string // address
 	c2s    *dir
@@ -172,7 +187,7 @@ type Conn struct {
 	dead   bool // both endpoints closed or reset
 }
 
-func (c *Conn) Name() string { return fmt.Sprintf("conn%d[%s>%s]", c.ID, c.Client, c.Server) }
+func (c *Conn) Name() string { return c.Key }
 
 type dir struct {
 	name      string
@@ -333,7 +348,7 @@ func (e *endpoint) Close() error {
 	n.Stats.Closes++
 	notify(e.rd.wrNotify) // peer writer blocked on capacity
 	n.mu.Unlock()
-	n.log("close", "conn", e.conn.ID, "side", e.local.S)
+	n.log("close", "conn", e.conn.Key, "side", e.local.S)
 	return nil
 }
 
@@ -403,7 +418,7 @@ func (n *Net) Actions() []Action {
 			}
 			d := d
 			c := c
-			out = append(out, Action{Key: fmt.Sprintf("net:deliver:%d:%s", c.ID, d.name), Kind: "deliver", Bytes: len(d.inflight), Run: func(k int) { n.deliver(c, d, k) }})
+			out = append(out, Action{Key: fmt.Sprintf("net:deliver:%s:%s", c.Key, d.name), Kind: "deliver", Bytes: len(d.inflight), Run: func(k int) { n.deliver(c, d, k) }})
 		}
 	}
 	// compact finished dials
@@ -429,20 +444,25 @@ func (n *Net) resolveDial(pd *pendingDial) {
 	if !up {
 		n.Stats.Refused++
 		n.mu.Unlock()
-		n.log("refused", "id", pd.id, "addr", pd.addr)
+		n.log("refused", "client", pd.client, "id", pd.id, "addr", pd.addr)
 		pd.res <- dialResult{err: &net.OpError{Op: "dial", Net: "tcp", Addr: Addr{pd.addr}, Err: syscall.ECONNREFUSED}}
 		return
 	}
+	if n.nextConn == nil {
+		n.nextConn = map[string]int{}
+	}
+	n.nextConn[pd.client+">"+pd.addr]++
 	c := &Conn{n: n, ID: len(n.conns) + 1, Client: pd.client, Server: pd.addr}
+	c.Key = fmt.Sprintf("%s>%s#%d", pd.client, pd.addr, n.nextConn[pd.client+">"+pd.addr])
 	c.c2s = newDir("c2s")
 	c.s2c = newDir("s2c")
-	cl := Addr{fmt.Sprintf("%s:%d", pd.client, 40000+c.ID)}
+	cl := Addr{fmt.Sprintf("%s:%d.%s", pd.client, 40000+n.nextConn[pd.client+">"+pd.addr], pd.addr[strings.LastIndexByte(pd.addr, ':')+1:])}
 	c.cep = &endpoint{conn: c, rd: c.s2c, wr: c.c2s, local: cl, remote: Addr{pd.addr}, closeCh: make(chan struct{}), dlCh: make(chan struct{})}
 	c.sep = &endpoint{conn: c, rd: c.c2s, wr: c.s2c, local: Addr{pd.addr}, remote: cl, closeCh: make(chan struct{}), dlCh: make(chan struct{})}
 	n.conns = append(n.conns, c)
 	n.Stats.Connects++
 	n.mu.Unlock()
-	n.log("connect", "id", pd.id, "conn", c.ID, "client", pd.client, "addr", pd.addr)
+	n.log("connect", "id", pd.id, "conn", c.Key)
 	select {
 	case l.accept <- c.sep:
 	default:
@@ -475,7 +495,7 @@ func (n *Net) deliver(c *Conn, d *dir, prefix int) {
 	notify(d.wrNotify)
 	n.checkDead(c)
 	n.mu.Unlock()
-	n.log("deliver", "conn", c.ID, "dir", d.name, "n", k, "fin", d.finSeen)
+	n.log("deliver", "conn", c.Key, "dir", d.name, "n", k, "fin", d.finSeen)
 }
 
 func (n *Net) checkDead(c *Conn) {
@@ -540,7 +560,7 @@ func (n *Net) Reset(c *Conn) {
 	c.dead = true
 	n.Stats.Resets++
 	n.mu.Unlock()
-	n.log("reset", "conn", c.ID)
+	n.log("reset", "conn", c.Key)
 }
 
 // Stall makes a direction ("c2s" or "s2c") undeliverable until Unstall.
@@ -557,7 +577,7 @@ func (n *Net) Stall(c *Conn, dirName string, on bool) {
 		}
 	}
 	n.mu.Unlock()
-	n.log("stall", "conn", c.ID, "dir", dirName, "on", on)
+	n.log("stall", "conn", c.Key, "dir", dirName, "on", on)
 }
 
 // Partition cuts client from addr: existing connections stall, dials hang.
